@@ -321,6 +321,69 @@ theorem condorcetWinner_perm {v₁ v₂ : Pairwise} (h : v₁.Perm v₂) (hn : (
   simp only [decide_eq_true_eq] at hPa hPb
   exact beatCounts_full_unique hn ha hb hPa hPb
 
+/-! ### (d) Smith and Schwartz sets -/
+
+/-- the closure of the initial reach relation depends on the candidates and the wins only as sets -/
+theorem mem_closure_congr {c₁ c₂ : List Cand} {w₁ w₂ : List Pair} (hc : ∀ x, x ∈ c₁ ↔ x ∈ c₂)
+    (hw : ∀ p, p ∈ w₁ ↔ p ∈ w₂) (ties : Bool) (a b : Cand) :
+    (a, b) ∈ closure c₁ (reach0 c₁ w₁ ties) ↔ (a, b) ∈ closure c₂ (reach0 c₂ w₂ ties) := by
+  have hirr : ∀ (cs : List Cand) (ws : List Pair), ∀ p ∈ reach0 cs ws ties, p.1 ≠ p.2 := by
+    rintro cs ws ⟨x, y⟩ hp; exact (mem_reach0.1 hp).2.2.1
+  have hin : ∀ (cs : List Cand) (ws : List Pair), ∀ p ∈ reach0 cs ws ties, p.1 ∈ cs ∧ p.2 ∈ cs := by
+    rintro cs ws ⟨x, y⟩ hp; exact ⟨(mem_reach0.1 hp).1, (mem_reach0.1 hp).2.1⟩
+  rw [mem_closure (hirr c₁ w₁) (hin c₁ w₁), mem_closure (hirr c₂ w₂) (hin c₂ w₂)]
+  have hrel : (fun x y => (x, y) ∈ reach0 c₁ w₁ ties) = (fun x y => (x, y) ∈ reach0 c₂ w₂ ties) := by
+    funext x y
+    apply propext
+    rw [mem_reach0, mem_reach0, hc, hc, hw, hw]
+  rw [hrel]
+
+theorem mem_smithSchwartz (v : Pairwise) (ties : Bool) (c : Cand) :
+    c ∈ smithSchwartz v ties ↔ c ∈ candidates v ∧ ∀ o ∈ candidates v,
+      if ties = true then
+        (o = c ∨ (c, o) ∈ closure (candidates v) (reach0 (candidates v) (pairwiseWins v false) ties))
+      else ((o, c) ∉ closure (candidates v) (reach0 (candidates v) (pairwiseWins v false) ties) ∨
+        (c, o) ∈ closure (candidates v) (reach0 (candidates v) (pairwiseWins v false) ties)) := by
+  unfold smithSchwartz
+  cases ties with
+  | true =>
+    simp only [if_true, List.mem_filter, (ordering_perm v _).mem_iff, List.all_eq_true, Bool.or_eq_true,
+      beq_iff_eq, contains_pair]
+  | false =>
+    simp only [Bool.false_eq_true, if_false, List.mem_filter, (ordering_perm v _).mem_iff, List.all_eq_true,
+      Bool.or_eq_true, Bool.not_eq_true', contains_pair]
+    constructor
+    · rintro ⟨hc, h⟩
+      refine ⟨hc, fun o ho => ?_⟩
+      rcases h o ho with h1 | h1
+      · left; intro hm; rw [← contains_pair, h1] at hm; exact Bool.false_ne_true hm
+      · exact Or.inr h1
+    · rintro ⟨hc, h⟩
+      refine ⟨hc, fun o ho => ?_⟩
+      rcases h o ho with h1 | h1
+      · left
+        cases hcon : (closure (candidates v) (reach0 (candidates v) (pairwiseWins v false) false)).contains (o, c) with
+        | false => rfl
+        | true => exact absurd (contains_pair.1 hcon) h1
+      · exact Or.inr h1
+
+/-- `_smith_schwartz_set`: the same set (listed in an order that may depend on the insertion order) -/
+theorem smithSchwartz_perm {v₁ v₂ : Pairwise} (h : v₁.Perm v₂) (hn : (v₁.map (·.1)).Nodup) (ties : Bool) :
+    (smithSchwartz v₁ ties).Perm (smithSchwartz v₂ ties) := by
+  rw [List.perm_ext_iff_of_nodup (nodup_smithSchwartz v₁ ties) (nodup_smithSchwartz v₂ ties)]
+  intro c
+  have hcl := mem_closure_congr (mem_candidates_perm h) (fun p => (pairwiseWins_perm h hn false).mem_iff) ties
+  rw [mem_smithSchwartz, mem_smithSchwartz]
+  simp only [hcl, mem_candidates_perm h]
+
+/-- **SmithSet: ballot-order independence** -/
+theorem smithSet_perm {v₁ v₂ : Pairwise} (h : v₁.Perm v₂) (hn : (v₁.map (·.1)).Nodup) :
+    (smithSet v₁).Perm (smithSet v₂) := smithSchwartz_perm h hn true
+
+/-- **SchwartzSet: ballot-order independence** -/
+theorem schwartzSet_perm {v₁ v₂ : Pairwise} (h : v₁.Perm v₂) (hn : (v₁.map (·.1)).Nodup) :
+    (schwartzSet v₁).Perm (schwartzSet v₂) := smithSchwartz_perm h hn false
+
 example : ([((0, 1), (3 : Rat)), ((1, 0), 2), ((1, 2), 4), ((2, 1), 1)] : Pairwise).Perm
       [((1, 2), (4 : Rat)), ((0, 1), 3), ((2, 1), 1), ((1, 0), 2)] ∧
     (([((0, 1), (3 : Rat)), ((1, 0), 2), ((1, 2), 4), ((2, 1), 1)] : Pairwise).map (·.1)).Nodup := by
